@@ -1,4 +1,5 @@
 """C07 Concurrent = sequential: the structural part (lock order, happens-before edges, hand-over moves)"""
+import eeval
 import edm
 import efreelist
 import elin
@@ -46,5 +47,9 @@ def run(ctx):
     kinds.wrappers(ctx, F, "bdd", [kinds.BF, kinds.BFQ], 30)
     kinds.wrappers(ctx, F, "bcdd", [kinds.BF, kinds.BFQ], 30)
     kinds.wrappers(ctx, F, "zbdd", [kinds.BF, kinds.BVS], 30)
+    ctx.explain("E-WRAP.delegate: the multi-threaded function types forward the non-recursive operations (constructors, eval, "
+                "sat_count, pick_cube*) to the sequential type: the item of the same name with the parameters in order.")
+    nd = eeval.check_mt_delegations(ctx, F)
+    ctx.floor("E-WRAP.delegate", "forwarding methods of the MT function types", nd, 15)
     ctx.not_decided = ("equivalence to a sequential execution over schedules, lost updates in the lock-free lists, "
                        "deadlock freedom beyond lock order (condvar protocols): behavioural, not claimed")
